@@ -241,12 +241,15 @@ func vmetaTakeDump(db *DBV2, probeKeys []string, probeIDs []int32) (*vmetaDump, 
 		if rows.Error() != nil {
 			return cache, rows.Error()
 		}
-		rows = conn.Query("vmeta_flood", "SELECT metric_name, last_time_update, count_free FROM flood_limits ORDER BY metric_name")
+		// the storage class of the key is part of the row: SQLite never equates a TEXT key with a BLOB key, so a
+		// row written with the other class is invisible to the code that looks it up
+		rows = conn.Query("vmeta_flood", "SELECT metric_name, last_time_update, count_free, typeof(metric_name) FROM flood_limits ORDER BY metric_name, typeof(metric_name)")
 		for rows.Next() {
 			name, _ := rows.ColumnBlobString(0)
 			t, _ := rows.ColumnInt64(1)
 			c, _ := rows.ColumnInt64(2)
-			flood = append(flood, fmt.Sprintf("metric=%q last_time_update=%d count_free=%d", name, t, c))
+			class, _ := rows.ColumnBlobString(3)
+			flood = append(flood, fmt.Sprintf("metric=%q(%s) last_time_update=%d count_free=%d", name, class, t, c))
 		}
 		return cache, rows.Error()
 	})
